@@ -979,4 +979,36 @@ def sampleObj : Obj := fun f =>
 
 example : typedOpts codec_options sampleObj = true := by decide
 
+
+/-! ## recorded expectations for the hand-transcribed helpers -/
+
+theorem wire_fingerprints_expected : wireHelperFingerprints = [
+  ("encodeVarRefs", "06882c4db77de5ca"),
+  ("decodeVarRefs", "c69f69218e9c03a2"),
+  ("MapConvert.StructToBool", "b6907e7d69c85e53"),
+  ("MapConvert.BoolToStruct", "4c661cd76b21c23b"),
+  ("ProcessorOptions.MarshalBinary", "cd7ca2b212ed1f78"),
+  ("ProcessorOptions.UnmarshalBinary", "ce21297bdc30e05c")
+] := by rfl
+
+theorem reparse_fingerprints_expected : reparseFingerprints = [
+  ("Scanner.reset", "990ac19e8693b016"),
+  ("bufScanner.reset", "3a731124182c5a20"),
+  ("Parser.reset", "ca18075239a5f1ae"),
+  ("NewParser", "5810f01943632612"),
+  ("ParseExpr", "d3bfc2fbe1534e11"),
+  ("ParseSource", "b4758ede2bba8161"),
+  ("ParseSortFields", "22527135735545ec"),
+  ("Parser.parseSortFields", "a48d8a3591980416"),
+  ("Parser.parseSortField", "227889fb0b23ec5a"),
+  ("SortField.RenderBytes", "9f716c8869faf392"),
+  ("SortFields.RenderBytes", "2975137f0f245f70"),
+  ("Parser.parseFields", "a4c514d3edb8db54"),
+  ("Parser.parseField", "a06a1f7f98e406c5"),
+  ("Parser.parseAlias", "6d4622595ec64c18"),
+  ("Field.RenderBytes", "303c734441abf17c"),
+  ("Fields.RenderBytes", "eb8ebdc647fd6e1d"),
+  ("ParseFields", "1e7be01a14ddba83")
+] := by rfl
+
 end OG.C12.Wire
